@@ -126,6 +126,9 @@ declarations:
 - decl: void vfill(std::vector<int> & v +intent(out))
 - decl: int * newarr(int n) +dimension(n)+deref(allocatable)
 - decl: const std::string & label(int k)
+- decl: size_t * counts(int n) +owner(caller)+dimension(n)
+- decl: int64_t * bigs(int n) +owner(caller)+dimension(n)
+- decl: std::vector<int> * mkvec() +owner(caller)
 """,
 }
 # the same description under another name (other prefixes): what one library leaves behind must not show in the next
@@ -250,7 +253,7 @@ def run(tier):
         traces = []
         with common.scratch("c07-") as base:
             gw, go, gh = gen_lib(base, "gen_wide"), gen_lib(base, "gen_other"), gen_lib(base, "gen_headers")
-            hists += [[gw, go], [go, gw], [gh, gw, go], [pool[0], go], [gw, pool[1], go]]
+            hists += [[gw, go], [go, gw], [gh, gw, go], [pool[0], go], [gw, pool[1], go], [gw, gh], [go, pool[1]], [gw, pool[2]]]
             with cf.ThreadPoolExecutor(common.NCPU) as ex:
                 hres = list(ex.map(lambda a: run_history(base, a[0], a[1]), enumerate(hists)))
             for (libs, (rc, se, outs, regs)) in zip(hists, hres):
